@@ -6,8 +6,9 @@
 -/
 import ASV.Proofs.Parser.Main
 import ASV.Proofs.Parser.Grammar
+import ASV.Proofs.Parser.Tokeniser
 namespace ASV.C02
-open ASV ASV.Rules ASV.Parser ASV.Grammar
+open ASV ASV.Rules ASV.Parser ASV.Grammar ASV.Layout
 
 /-! ### the regenerated tables still say what the model assumes -/
 
@@ -70,6 +71,33 @@ theorem conditions_accepts_only_grammar (fuel : Nat) (allowCds isGroup : Bool) (
       shapeOks allowCds cs = true ∧ noRepeats cs = true ∧ cs ≠ [] ∧ endCheck isGroup s' = .ok () := by
   obtain ⟨new, a, k, g, ne, e⟩ := (blockPost fuel).conds _ _ _ _ _ h
   exact ⟨new, a.consumed, k, g.shape, g.norep, ne, e⟩
+
+/-! ### whitespace and comments are irrelevant (thm 1) -/
+
+/-- thm 1 (`tokenise_layout`): for every sequence of written tokens (single-character symbols and
+    multi-character words), every choice of filler before each of them — any whitespace characters,
+    any `# … newline` comments, none at all next to a symbol — and every tail (filler, possibly an
+    unterminated comment), the tokeniser returns exactly the written tokens, classified by their
+    text alone. -/
+theorem tokenise_layout (items : List (List Filler × Word)) (tail : Tail)
+    (hok : okSeq false items = true) (ht : tail.ok = true) :
+    tokenise (String.ofList (render items ++ tail.chars)) = .ok (items.map fun x => mkTok x.2.text) :=
+  tokenise_render items tail hok ht
+
+/-- two layouts of the same tokens tokenise alike -/
+theorem layout_irrelevant (items items' : List (List Filler × Word)) (tail tail' : Tail)
+    (hw : items.map (·.2.text) = items'.map (·.2.text))
+    (hok : okSeq false items = true) (ht : tail.ok = true) (hok' : okSeq false items' = true) (ht' : tail'.ok = true) :
+    tokenise (String.ofList (render items ++ tail.chars)) = tokenise (String.ofList (render items' ++ tail'.chars)) := by
+  rw [tokenise_render items tail hok ht, tokenise_render items' tail' hok' ht']
+  have h1 : (items.map fun x => mkTok x.2.text) = (items.map (·.2.text)).map mkTok := by simp
+  have h2 : (items'.map fun x => mkTok x.2.text) = (items'.map (·.2.text)).map mkTok := by simp
+  rw [h1, h2, hw]
+
+/-- `cds(a# c\n and\tb)` with a trailing open comment -/
+example : okSeq false [([], .word 'c' ['d', 's']), ([], .sym '('), ([], .word 'a' []),
+      ([.comment [' ', 'c'], .ws ' '], .word 'a' ['n', 'd']), ([.ws '\t'], .word 'b' []), ([], .sym ')')] = true := by
+  decide +kernel
 
 /-! ### precedence and grouping (thm 2, 3): for every syntax tree of the documented grammar — any
     nesting depth, any mix of operators — its token rendering is parsed into the condition
